@@ -86,6 +86,10 @@ CHECKS = {
    technique="exhaustive enumeration of (operation configuration) write-set inspections through a private-state hook, and differential exploration of every single-element mutation of every caller-visible slice at every one of three moments of a call/op/back-propagate history, compared with the unmutated twin",
    text="Every public operation configuration of a small shape set and every component is run with a deep before/after inspection of all operands (elements as actually nested, dims, flags, gradient identity/value, edges) across the call, further use of the result and BackPropagate; and for every slice that crosses the API (passed in or handed out) every element is overwritten by every alternative value at each of three later moments, and all subsequent observations must equal those of the untouched twin.",
    note="Mutation alphabet per slice kind; three mutation moments; small shapes. Hook reads private state."),
+ "C09": dict(engine="E1", ref="§5 C09",
+   technique="bounded-exhaustive enumeration of argument tuples (small integers, nil, foreign implementations, all ragged nested trees up to depth 4, invalid configs) for every public entry point, each call executed under recover and a hook step budget and compared with a validity model",
+   text="Every public constructor, tensor method and component entry point is called on every argument tuple of the stated small domain (8.3 million calls in the quick tier); each call must return without panicking or running away, return an error exactly when the validity model says the documented precondition is violated, return no result with an error, return the defined shape (and well-formed nested data) otherwise, and leave its operands untouched when it rejects.",
+   note="Validity model written from the definedness rules; unspecified (no-panic only) for foreign Tensor implementations and non-finite distribution parameters. Wall-clock watchdog only as a last-resort hang guard."),
 }
 
 NOT_YET = {}
